@@ -96,10 +96,9 @@ Proof.
 Qed.
 
 Theorem gen_array_insert_f_spec (growOnReserve : bool) (items : Z -> Z) cnt cap_ base index count it ptr tmp :
-  0 <= index -> index <= cnt -> cnt <= cap_ -> cap_ < U64 - 1 -> 0 <= count -> cnt + count < U64 - 1 ->
+  0 <= index -> index <= cnt -> cnt <= cap_ -> cap_ < U64 -> 0 <= count -> cnt + count < U64 ->
   0 <= base -> base + cnt < U64 -> 0 <= ptr < U64 -> U64 <= tmp ->
   ((0 <= it < cnt /\ ptr = base + it) \/ (U64 <= it /\ (ptr < base \/ base + cnt <= ptr))) ->
-  (forall r, GrowCapacity growOnReserve cap_ (cnt + count) 0 false = Ok r -> r < U64 - 1) ->
   exists items' cap', gen_array_insert_f growOnReserve items cnt cap_ base index count it ptr tmp = Ok (items', cnt + count, cap') /\
     cnt + count <= cap' /\
     (forall j, 0 <= j < index -> items' j = items j) /\
